@@ -79,7 +79,7 @@ type Ctl struct {
 	// OnHolders, when set, is called at every quiescent point at which two or more goroutines are parked at gates
 	// that lie inside critical sections (".locked", ".rlocked", ".bcast", ".wait" points)
 	OnHolders func(held []Arrival)
-	Log    func(format string, args ...any)
+	Log       func(format string, args ...any)
 }
 
 func New() *Ctl {
